@@ -507,6 +507,9 @@ class Runner:
         key = len(pre_index) + 1 + min(sub + [len(pre_index)])
       others.append((key, len(others), n))
     roots += [n for _, _, n in sorted(others, key=lambda x: (x[0], x[1]))]
+    # nodes that this step removed from a tree or replaced (they were stored in a container
+    # before and are held by nobody now)
+    self.removed = [n for _, _, n in others if id(n) in pre_index]
     self.roots = roots
     return any(c > 1 for c in contained.values())
 
@@ -660,6 +663,12 @@ def run_history(case, check=True, extra=None):
       break
     if check:
       bad = r.check_c01()
+      if not bad:
+        for n in getattr(r, 'removed', []):
+          if n.sym_parent is not None:
+            bad = ('not-detached', 'the node removed / replaced by this call still reports a parent '
+                   '(sym_path %r)' % str(n.sym_path))
+            break
       if bad:
         fail = {'step': i, 'op': j, 'kind': bad[0], 'what': bad[1]}
         break
